@@ -24,10 +24,11 @@ func init() {
 			"(suppressor) each wrapper that consults OverlapSuppressor.Add/Remove fulfils three roles through the raw OnMemberAdded/OnMemberRemoved callbacks, decided per role through the wrapper's helpers and closures - non-CIDR members pass through unchanged, the wrapper's own member is emitted in its own direction under the suppressor's primary result being non-nil, and the suppressor's secondary results (members newly masked by an added CIDR / re-exposed by a removed one) are emitted in the opposite direction by the raw callback, not through a wrapper that would run them through the suppressor again; the raw callbacks are invoked for nothing else; " +
 			"deleting an IP set also deletes its suppressor state, and memberDeduplicator.DeleteIPSet drops every per-set trie map that getTrie fills; " +
 			"(contribsym) the members that are incremented and those that are decremented are both results of CalculateEndpointContribution (directly or via RecalcCachedContributions); " +
+			"(eqcover) the equality that lets UpdateEndpointOrSet skip a no-op update (every func(a, b T) bool over a struct of the package that is called in the package: endpointData.Equals) reads from both operands every field its caller fills in from the update, and compares the elements of each slice field whole (==, slices.Equal, reflect.DeepEqual) or in every field of the element struct (model.EndpointPort: Name, Protocol, Port); " +
 			"(cached) every increment site first records the IP set id in the endpoint's cached matching-set collection that RecalcCachedContributions later ranges over for the decrement; " +
 			"(candidates) the scan strategy that one label index (endpoint-own or parent) offers for a selector restriction is adopted as the candidate scan (stored, merged, returned, scanned) only where every feasible path has tested the other index's strategy for the same label and restriction to be empty; " +
 			"(trieprefix) every ip.CIDRTrie/CIDRNode function reachable from the overlap suppressor that takes a CIDR lets a branch or result depend on that CIDR's prefix length - not only on Addr()/Version(), which hide it - itself or through the trie function it hands the CIDR to, and a boolean answer true (Covers) is on every path preceded by such a test.",
-		NotDecided: "Membership arithmetic over histories (that counts equal the number of contributing endpoints); functional correctness of ip.CIDRTrie Covers/ClosestDescendants beyond their dependence on the prefix length (hence that emitted members cover exactly the same addresses); that an adopted scan strategy yields a superset of the matching items and the early return when a restriction rules out both indexes (see C07.restrict for the per-leaf half); emptiness tests hidden inside helper functions (the rule then fires: re-confirm); that the set id passed to the wrappers is the id of the ipSetData whose count changed; that EVERY element of the suppressor's secondary result is announced (the role obligations require a raw opposite-direction invocation fed only from that result, not the totality of the loop around it); wrappers whose type assertion or suppressor call is moved into a helper that returns the results (the roles then fire: re-confirm).",
+		NotDecided: "eqcover: that a field-wise element comparison which reads every field also compares it correctly (coverage condition); equality hidden behind interface-typed operands. Address arithmetic that builds CIDRs (extractCIDRsFromNetworkSet splitting a /0 into two /1 halves: whether the halves computed for IPv6 cover the v6 space is a property of ip.Addr arithmetic on concrete values, not of the code structure — seed C04-4 is not decided). Membership arithmetic over histories (that counts equal the number of contributing endpoints); functional correctness of ip.CIDRTrie Covers/ClosestDescendants beyond their dependence on the prefix length (hence that emitted members cover exactly the same addresses); that an adopted scan strategy yields a superset of the matching items and the early return when a restriction rules out both indexes (see C07.restrict for the per-leaf half); emptiness tests hidden inside helper functions (the rule then fires: re-confirm); that the set id passed to the wrappers is the id of the ipSetData whose count changed; that EVERY element of the suppressor's secondary result is announced (the role obligations require a raw opposite-direction invocation fed only from that result, not the totality of the loop around it); wrappers whose type assertion or suppressor call is moved into a helper that returns the results (the roles then fire: re-confirm).",
 		Assumptions: []string{
 			"go/types + go/ssa (x/tools v0.50.0) model of the current source, CGO_ENABLED=0 build",
 			"Go map semantics for memberToRefCount (missing key reads 0)",
@@ -37,6 +38,12 @@ func init() {
 		},
 		Run: runC04,
 		Fixtures: []Fixture{
+			{Name: "no-op check compares named ports by name and number only (a protocol-only change of a named port is dropped)", File: "felix/labelindex/named_port_index.go",
+				Old: "\tfor i, p := range d.ports {\n\t\tif other.ports[i] != p {\n", New: "\tfor i, p := range d.ports {\n\t\tif other.ports[i].Name != p.Name || other.ports[i].Port != p.Port {\n", Expect: "C04.eqcover/endpointData.Equals/endpointData.ports/EndpointPort.Protocol"},
+			{Name: "no-op check compares only the number of CIDRs (an endpoint whose address changes keeps its old IP set member)", File: "felix/labelindex/named_port_index.go",
+				Old: "\tfor i, c := range d.nets {\n\t\tif other.nets[i] != c {\n\t\t\treturn false\n\t\t}\n\t}\n", New: "", Expect: "C04.eqcover/endpointData.Equals/endpointData.nets/elements"},
+			{Name: "no-op check ignores the endpoint's own labels", File: "felix/labelindex/named_port_index.go",
+				Old: "\tif !d.labels.Equals(other.labels) {\n\t\treturn false\n\t}\n", New: "", Expect: "C04.eqcover/endpointData.Equals/endpointData.labels"},
 			{Name: "member added event on every increment (UpdateIPSet)", File: "felix/labelindex/named_port_index.go",
 				Old: "\t\t\tif refCount == 0 {\n\t\t\t\tif log.GetLevel() >= log.DebugLevel {", New: "\t\t\tif refCount >= 0 {\n\t\t\t\tif log.GetLevel() >= log.DebugLevel {", Expect: "C04.refcount/inc-edge/"},
 			{Name: "member added when count reaches 2", File: "felix/labelindex/named_port_index.go",
@@ -127,6 +134,7 @@ func runC04(c *Ctx) {
 	c04ContribSym(c, m, incs)
 	c04Candidates(c, m, m.idxT)
 	c04TriePrefix(c, m.supT)
+	c04EqCover(c, m)
 }
 
 // c04BuildModel resolves the anchors shared by the C04 families (also used by
